@@ -375,8 +375,37 @@ fn pattern_entries(combos: &[usize], mut pat: usize, background: &[(usize, u32)]
     es
 }
 
+/// ranges collected with a weight of -0.0 (numerically inside [0,1]): alone, beside +0.0, inside complete rank pairs and runs
+fn neg_zero_ranges(w: &mut dyn Write) {
+    const NZ: u32 = 0x8000_0000;
+    emit_range_ops(w, &[(combo_code(0, 4), NZ)]);
+    emit_range_ops(w, &[(combo_code(0, 4), 0), (combo_code(1, 5), NZ)]);
+    emit_range_ops(w, &[(combo_code(0, 4), NZ), (combo_code(0, 4), 0)]);
+    emit_range_ops(w, &[(combo_code(0, 4), 0), (combo_code(0, 4), NZ)]);
+    for r in [0usize, 6, 12] {
+        let cs = pocket_combos(r);
+        // the whole pocket pair at -0.0; at -0.0 except one combo at +0.0; a run of two pocket pairs, one at -0.0 one at +0.0
+        emit_range_ops(w, &cs.iter().map(|c| (*c, NZ)).collect::<Vec<_>>());
+        emit_range_ops(w, &cs.iter().enumerate().map(|(i, c)| (*c, if i == 2 { 0 } else { NZ })).collect::<Vec<_>>());
+        let r2 = if r == 12 { 11 } else { r + 1 };
+        let mut es: Vec<(usize, u32)> = cs.iter().map(|c| (*c, NZ)).collect();
+        es.extend(pocket_combos(r2).iter().map(|c| (*c, 0u32)));
+        emit_range_ops(w, &es);
+    }
+    for (x, y) in [(0usize, 1usize), (3, 9)] {
+        for suited in [true, false] {
+            let cs = pair_combos(x, y, suited);
+            emit_range_ops(w, &cs.iter().map(|c| (*c, NZ)).collect::<Vec<_>>());
+            let mut es: Vec<(usize, u32)> = cs.iter().map(|c| (*c, NZ)).collect();
+            es.extend(pair_combos(x, y + 1, suited).iter().map(|c| (*c, 0u32)));
+            emit_range_ops(w, &es);
+        }
+    }
+}
+
 pub fn gen_c12(tier: &str, rng: &mut Rng, w: &mut dyn Write) {
     let thorough = tier == "thorough";
+    neg_zero_ranges(w);
     // the combos (in iteration order) and the text of every rank pair, given in either rank order
     for r in 0..13 {
         writeln!(w, "rank_pair 0 {} 0", r).unwrap();
@@ -547,6 +576,7 @@ fn digits3(mut n: usize, len: usize) -> Vec<u8> {
 }
 
 pub fn gen_c06(tier: &str, rng: &mut Rng, w: &mut dyn Write) {
+    neg_zero_ranges(w);
     let thorough = tier == "thorough";
     let weights: [u32; 7] = [0x3F000000, 0x3DCCCCCD, 0x3F7FFFFF, 0x00000001, 0, 0x3E99999A, 0x33D6BF95];
     // every present/absent/other-weight pattern along short rows (high cards with at most 7 kickers), suited and offsuit
@@ -650,6 +680,11 @@ fn rand_row(rng: &mut Rng) -> (usize, Vec<u8>) {
 }
 
 pub fn gen_c17(tier: &str, rng: &mut Rng, w: &mut dyn Write) {
+    neg_zero_ranges(w);
+    // the same contents with -0.0 in place of +0.0 (`==`-equal ranges) must print identically
+    writeln!(w, "canon 7 1 4 2147483648").unwrap();
+    writeln!(w, "canon 8 2 4 0 57 2147483648").unwrap();
+    writeln!(w, "canon 9 3 4 2147483648 57 1056964608 110 2147483648").unwrap();
     // every single rank pair alone, and every pair of neighbouring rank pairs of a row
     for h in 0..12usize {
         for k in (h + 1)..13 {
